@@ -674,8 +674,16 @@ def explore_nodequeue(inp):
 def run_nodequeue(inp, sched):
     from harness import nodequeue
     o = nodequeue.run_queue(inp, sched)
-    if o["end"] == "more" and not o["alive"] and not o["rerun"]:
+    if o["end"] == "more" and not o["alive"] and not o["rerun"] and sched[-2:] == [[], []]:
         o["end"] = "stuck"
     o.pop("alive", None)
     o.pop("rerun", None)
     return o
+
+
+def random_nodequeue(seed, k):
+    """k random exit schedules of one random larger input."""
+    import random
+    from harness import nodequeue
+    inp = nodequeue.random_input(random.Random(seed))
+    return [nodequeue.random_run(inp, seed * 101 + i) for i in range(k)]
